@@ -15,6 +15,7 @@ import PtProofs.AccessLemmas
 import PtProofs.PadLemmas
 import PtProofs.C02
 import PtProofs.ReduceLemmas
+import PtProofs.ConstructLemmas
 namespace Pt
 
 /-- all accesses of a one-element access list with `ok = true` are ok -/
@@ -306,6 +307,28 @@ theorem reduce_accesses_inbounds (op : RedOp) (a : Arr Val) (axes : Option (List
     ∀ acc ∈ accesses (idxEnv i binds) e, acc.ok = true ∧ acc.affine = true :=
   reduceExpr_accesses op a axes e binds i he hl hi
 
+/-- the constructors `full / zeros / ones`, `eye`, `arange` read no array at all -/
+theorem constructors_access_free (env : Env) :
+    (∀ dt fill e, Lower.fullLit dt fill = some e → accesses env e = []) ∧
+    (∀ k, accesses env (Lower.eyeExpr k) = []) ∧
+    (∀ isInt start stop step shape e, Lower.arange isInt start stop step = some (shape, e) →
+      accesses env e = []) :=
+  constructors_no_accesses env
+
+/-- the lowered CSR product, whose reduction bounds and one subscript are read
+    from arrays: under CSR well-formedness every access — `row_starts[_0]`,
+    `row_starts[_0 + 1]`, and in every iteration `elem_values[_r0]`,
+    `elem_col_indices[_r0]`, `b[elem_col_indices[_r0], _1, …]` — is in bounds, and
+    all but the last (the gather through the column indices) are affine -/
+theorem csr_accesses_inbounds {nrows ncols nnz : Nat} {ev ec rs b : Arr Val}
+    {R : Nat → Int} {C : Nat → Nat} {E : Nat → ℚ} {B : Idx → ℚ}
+    (h : CsrOK nrows ncols nnz ev ec rs b R C E B) {binds : List (String × Arr Val)}
+    (hb : CsrBinds binds ev ec rs b) (i : Idx)
+    (hi : inB (Spec.csrMatmulV nrows ncols ev ec rs b).shape i = true) :
+    ∀ acc ∈ accesses (idxEnv i binds) (Lower.csrExpr b.shape.length),
+      acc.ok = true ∧ (acc.name ≠ "_in3" → acc.affine = true) :=
+  csrExpr_accesses h hb i hi
+
 /-! ## non-vacuity: the hypotheses are those of C02 (instances there); here the
     access lists of concrete instances, computed -/
 
@@ -355,6 +378,14 @@ example : (accesses (idxEnv [5, 0] [("_in0", exArr)]) (Lower.roll (-4) 1 2 3)).m
 example : ((Lower.reduceExpr .sum [2, 3] (some [1])).map fun e =>
     (accesses (idxEnv [1] [("in", exArr)]) e).map (fun acc => (acc.idx, acc.affine, acc.ok)))
       = some [([.i 1, .i 0], true, true), ([.i 1, .i 1], true, true), ([.i 1, .i 2], true, true)] := by
+  decide +kernel
+
+-- the CSR example of C02 at output [0, 1]: bounds, then per stored entry value, column, gathered operand
+example : (accesses (idxEnv [0, 1] exCsrBinds) (Lower.csrExpr 2)).map
+    (fun acc => (acc.name, acc.idx, acc.affine, acc.ok))
+      = [("_in2", [.i 0], true, true), ("_in2", [.i 1], true, true),
+         ("_in0", [.i 0], true, true), ("_in1", [.i 0], true, true), ("_in3", [.i 0, .i 1], false, true),
+         ("_in0", [.i 1], true, true), ("_in1", [.i 1], true, true), ("_in3", [.i 2, .i 1], false, true)] := by
   decide +kernel
 
 end Pt
